@@ -115,6 +115,14 @@ func c10Ops() []c10Op {
 		c10Op{op{"send2 $w od2 ->x", 0, func() gen.Stmt {
 			return sv(&gen.SentLit{E: gen.Mon(U, "2")}, &gen.SrcOverdraft{Addr: v("w"), Bounded: gen.Mon(U, "2")}, da("x"))
 		}}, "w"},
+		// an account variable under a cap, and under a cap inside an allotment (the same parsed script runs
+		// with every value of $w: what is asked of the store must follow the value, not the first one seen)
+		c10Op{op{"send3 {max2 $w, a}->x", 0, func() gen.Stmt {
+			return sv(&gen.SentLit{E: gen.Mon(U, "3")}, lst(&gen.SrcCapped{Cap: gen.Mon(U, "2"), From: &gen.SrcAccount{E: v("w")}}, sa("a")), da("x"))
+		}}, "w"},
+		c10Op{op{"send* max4 {$w b}->x", 0, func() gen.Stmt {
+			return sv(&gen.SentAll{Asset: gen.Asset(U)}, &gen.SrcCapped{Cap: gen.Mon(U, "4"), From: lst(&gen.SrcAccount{E: v("w")}, sa("b"))}, da("x"))
+		}}, "w"},
 	)
 	return out
 }
